@@ -151,6 +151,16 @@ enum Op {
     },
     /// API reset/shutdown while no session is up (fires the pending timers)
     ForceDownIdle,
+    /// The expiry handler of a restart timer that was cancelled a moment too late:
+    /// its task had already left `timeout()` when the sender was dropped, so
+    /// `gr_restart_timer_expired` still runs -- at any later point of the history.
+    /// Applicable once per restart timer that was cancelled (not fired); a newer
+    /// restart timer may be armed meanwhile (the handler does not touch the slot).
+    LateRestart,
+    /// The same for the LLGR timer of one family (`llgr_timer_expired`).
+    LateLlgr {
+        fam: usize,
+    },
 }
 
 impl Op {
@@ -175,6 +185,8 @@ impl Op {
             Op::FireRestart => "restart-timer",
             Op::FireLlgr { .. } => "llgr-timer",
             Op::ForceDownIdle => "force-down",
+            Op::LateRestart => "late-restart-expiry",
+            Op::LateLlgr { .. } => "late-llgr-expiry",
         }
     }
 }
@@ -429,6 +441,10 @@ enum Ev {
         fam: usize,
     },
     ForcedDownIdle,
+    LateRestart,
+    LateLlgr {
+        fam: usize,
+    },
 }
 
 #[derive(Clone, Debug)]
@@ -781,6 +797,34 @@ impl Model {
                 label = "force-down".into();
                 if post.llgr_timers != 0 {
                     st.add("unjudged:force-down-starts-llgr-period");
+                }
+            }
+            Ev::LateRestart | Ev::LateLlgr { .. } => {
+                // only the standing invariants (I1, I5, I7) are judged: a late handler
+                // is not "that timer's expiry" of any pending period
+                let which = if matches!(ev, Ev::LateRestart) {
+                    "restart"
+                } else {
+                    "llgr"
+                };
+                label = format!("late-{}-expiry", which);
+                // helper state the handler found, as far as it can be told from outside
+                let state = if !pre.restarting {
+                    "idle"
+                } else if self.live.is_some() {
+                    "reconnected"
+                } else if pre.llgr_timers != 0 && !pre.gr_timer {
+                    "llgr-staling"
+                } else {
+                    "restarting"
+                };
+                st.add(&format!("late:{}:in-{}", which, state));
+                if pre.paths.iter().any(|p| self.stale_like(p)) {
+                    st.add(&format!("late:{}:with-stale-routes", which));
+                    self.judged_after_retention = true;
+                }
+                if pre != post {
+                    st.add(&format!("late:{}:changed-the-state", which));
                 }
             }
         }
@@ -1385,7 +1429,30 @@ impl L1World {
                     .force_down(CloseReason::AdminShutdown, false);
                 Ok(Some(Ev::ForcedDownIdle))
             }
+            Op::LateRestart | Op::LateLlgr { .. } => {
+                late_expiry(op, &self.ctx, &self.tables, self.addr).await
+            }
         }
+    }
+}
+
+/// Exactly what the spawned timer tasks call when they decide to run.
+async fn late_expiry(
+    op: &Op,
+    ctx: &Arc<std::sync::Mutex<PeerContext>>,
+    tables: &TableHandle,
+    addr: IpAddr,
+) -> StepResult {
+    match op {
+        Op::LateRestart => {
+            gr_restart_timer_expired(Arc::clone(ctx), tables.clone(), addr).await;
+            Ok(Some(Ev::LateRestart))
+        }
+        Op::LateLlgr { fam } => {
+            llgr_timer_expired(Arc::clone(ctx), tables.clone(), addr, FAMS[*fam]).await;
+            Ok(Some(Ev::LateLlgr { fam: *fam }))
+        }
+        _ => Ok(None),
     }
 }
 
@@ -1965,6 +2032,9 @@ impl<'a> L2World<'a> {
                     .force_down(CloseReason::AdminShutdown, false);
                 Ok(Some(Ev::ForcedDownIdle))
             }
+            Op::LateRestart | Op::LateLlgr { .. } => {
+                late_expiry(op, &self.ctx, &self.tables, self.addr).await
+            }
         }
     }
 }
@@ -2045,7 +2115,25 @@ async fn run_history(
     };
     let mut model = Model::new(cfg);
     let mut pre = world.observe();
+    // timers that were cancelled (not fired) so far: each may still have a handler in flight
+    let mut late_restart_credit = 0u32;
+    let mut late_llgr_credit = [0u32; 2];
     for (i, op) in ops.iter().enumerate() {
+        match op {
+            Op::LateRestart => {
+                if late_restart_credit == 0 {
+                    continue;
+                }
+                late_restart_credit -= 1;
+            }
+            Op::LateLlgr { fam } => {
+                if late_llgr_credit[*fam] == 0 {
+                    continue;
+                }
+                late_llgr_credit[*fam] -= 1;
+            }
+            _ => {}
+        }
         let ev = match world.apply(op).await {
             Ok(Some(ev)) => ev,
             Ok(None) => continue,
@@ -2073,6 +2161,26 @@ async fn run_history(
             break;
         }
         out.stats.add(&format!("op:{}", op.kind()));
+        {
+            // a slot that was armed and is now empty / replaced without having been fired
+            let fires_all = matches!(
+                op,
+                Op::ForceDownIdle
+                    | Op::Drop {
+                        how: DropHow::ApiShutdown | DropHow::ApiReset | DropHow::ApiSilent
+                    }
+            );
+            let replaced = matches!(op, Op::Drop { .. });
+            if pre.gr_timer && !fires_all && !matches!(op, Op::FireRestart) && (!post.gr_timer || replaced) {
+                late_restart_credit += 1;
+            }
+            for f in 0..2 {
+                let fired = matches!(op, Op::FireLlgr { fam } if *fam == f);
+                if has(pre.llgr_timers, f) && !fires_all && !fired && (!has(post.llgr_timers, f) || replaced) {
+                    late_llgr_credit[f] += 1;
+                }
+            }
+        }
         let f = model.step(&ev, &pre, &post, &mut out.stats);
         out.judged += 1;
         if want_trace {
@@ -2273,6 +2381,110 @@ fn gen_llgr_cycle(rng: &mut Rng, layer: u8) -> (LocalCfg, Vec<Op>) {
     (cfg, ops)
 }
 
+/// Directed skeleton for the "timer handler runs late" race: a GR(-LLGR) cycle in
+/// which the handlers of the cancelled timers run at random later points (right
+/// after the reconnect, between re-announcements, after End-of-RIB, after a
+/// second drop, after the next reconnect).
+fn gen_late_cycle(rng: &mut Rng, layer: u8) -> (LocalCfg, Vec<Op>) {
+    let mut cfg = gen_cfg(rng, layer);
+    if cfg.gr == 0 {
+        cfg.gr = 0b11;
+    }
+    cfg.prefix_limit = false;
+    let spec = CapSpec {
+        mp: 0b11,
+        gr: Some((*rng.pick(&[0b11u8, 0b11, 0b01, 0b10]), rng.bool(), 0)),
+        llgr: if rng.bool() { *rng.pick(&[0b11u8, 0b01, 0b10]) } else { 0 },
+    };
+    let mut ops = vec![Op::Connect {
+        spec,
+        outcome: ConnOutcome::Full,
+    }];
+    for f in 0..2 {
+        for p in 0..2u8 {
+            ops.push(Op::Announce {
+                fam: f,
+                pfx: p,
+                kind: gen_kind(rng),
+            });
+        }
+        ops.push(Op::Eor { fam: f });
+    }
+    ops.push(Op::Drop {
+        how: DropHow::TcpRst,
+    });
+    if rng.chance(1, 3) {
+        ops.push(Op::FireRestart);
+    }
+    if rng.chance(1, 5) {
+        ops.push(Op::Connect {
+            spec,
+            outcome: ConnOutcome::DieAfterOpen,
+        });
+    }
+    let spec2 = if rng.chance(3, 4) { spec } else { gen_spec(rng, None) };
+    ops.push(Op::Connect {
+        spec: spec2,
+        outcome: ConnOutcome::Full,
+    });
+    // the new session's traffic, with the late handlers dropped in at random positions
+    let mut mid: Vec<Op> = Vec::new();
+    for _ in 0..rng.range(0, 3) {
+        mid.push(Op::Announce {
+            fam: rng.usize(2),
+            pfx: rng.below(3) as u8,
+            kind: gen_kind(rng),
+        });
+    }
+    let mut fams = [0usize, 1];
+    rng.shuffle(&mut fams);
+    for f in fams {
+        if rng.chance(5, 6) {
+            mid.push(Op::Eor { fam: f });
+        }
+    }
+    let mut late = vec![Op::LateRestart];
+    for f in 0..2 {
+        if rng.chance(2, 3) {
+            late.push(Op::LateLlgr { fam: f });
+        }
+    }
+    if rng.chance(1, 4) {
+        late.clear();
+    }
+    for l in late {
+        let at = rng.usize(mid.len() + 1);
+        mid.insert(at, l);
+    }
+    ops.extend(mid);
+    if rng.chance(1, 2) {
+        ops.push(Op::Drop {
+            how: gen_drop(rng, layer),
+        });
+        for l in [Op::LateRestart, Op::LateLlgr { fam: 0 }, Op::LateLlgr { fam: 1 }] {
+            if rng.chance(1, 2) {
+                ops.push(l);
+            }
+        }
+        if rng.chance(1, 2) {
+            ops.push(Op::FireRestart);
+        }
+        if rng.chance(1, 2) {
+            ops.push(Op::LateLlgr { fam: rng.usize(2) });
+        }
+        if rng.chance(1, 2) {
+            ops.push(Op::Connect {
+                spec: spec2,
+                outcome: ConnOutcome::Full,
+            });
+            ops.push(Op::LateRestart);
+            ops.push(Op::Eor { fam: 0 });
+            ops.push(Op::Eor { fam: 1 });
+        }
+    }
+    (cfg, ops)
+}
+
 fn gen_ops(rng: &mut Rng, layer: u8, len: usize) -> Vec<Op> {
     let mut ops = Vec::new();
     let first = gen_spec(rng, None);
@@ -2316,8 +2528,15 @@ fn gen_ops(rng: &mut Rng, layer: u8, len: usize) -> Vec<Op> {
                         how: gen_drop(rng, layer),
                     }
                 }
-                95..=97 => Op::FireRestart,
-                _ => Op::FireLlgr { fam: rng.usize(2) },
+                95..=97 => Op::LateRestart,
+                98 => Op::LateLlgr { fam: rng.usize(2) },
+                _ => {
+                    if rng.bool() {
+                        Op::FireRestart
+                    } else {
+                        Op::FireLlgr { fam: rng.usize(2) }
+                    }
+                }
             }
         } else {
             match k {
@@ -2338,8 +2557,10 @@ fn gen_ops(rng: &mut Rng, layer: u8, len: usize) -> Vec<Op> {
                     spec: gen_spec(rng, Some(&last_spec)),
                     outcome: ConnOutcome::DieAfterOpen,
                 },
-                64..=78 => Op::FireRestart,
-                79..=93 => Op::FireLlgr { fam: rng.usize(2) },
+                64..=76 => Op::FireRestart,
+                77..=88 => Op::FireLlgr { fam: rng.usize(2) },
+                89..=91 => Op::LateRestart,
+                92..=93 => Op::LateLlgr { fam: rng.usize(2) },
                 _ => Op::ForceDownIdle,
             }
         };
@@ -2542,6 +2763,9 @@ fn exh_alphabet(spec: &CapSpec) -> Vec<(&'static str, Vec<Op>)> {
         ("L-v4", vec![Op::FireLlgr { fam: 0 }]),
         ("L-v6", vec![Op::FireLlgr { fam: 1 }]),
         ("F", vec![Op::ForceDownIdle]),
+        ("late-T", vec![Op::LateRestart]),
+        ("late-L-v4", vec![Op::LateLlgr { fam: 0 }]),
+        ("late-L-v6", vec![Op::LateLlgr { fam: 1 }]),
     ]
 }
 
@@ -2964,9 +3188,13 @@ fn part_random(ctl: &Ctl, rep: &mut Report, layer: u8) {
             rep.count(&format!("{}:budget-cut", lname));
             break;
         }
-        let (cfg, ops) = if rng.chance(1, 5) {
+        let profile = rng.below(10);
+        let (cfg, ops) = if profile < 2 {
             rep.count(&format!("{}:profile:llgr-cycle", lname));
             gen_llgr_cycle(&mut rng, layer)
+        } else if profile < 4 {
+            rep.count(&format!("{}:profile:late-cycle", lname));
+            gen_late_cycle(&mut rng, layer)
         } else {
             rep.count(&format!("{}:profile:free", lname));
             let cfg = gen_cfg(&mut rng, layer);
